@@ -33,7 +33,7 @@ import time
 PROPERTIES = ['C01', 'C02', 'C04', 'C05', 'C15']
 PROPERTY = 'C01'
 
-N_QUICK = 3000
+N_QUICK = 2500
 N_THOROUGH = 20000
 
 BOUND = (
@@ -210,37 +210,47 @@ class _Ledger(object):
         self.pending[pid].append((token, asset, qty))
         return None
 
-    def update(self, t_us):
-        """Returns the expected fills of this update as [(pid, asset, qty, price, commission)] in ledger order."""
+    def mark(self, t_us):
+        """update(t), first half: the clock moves and every held asset of every portfolio is marked at mid(t)."""
         self.now = t_us
         for pid in self.order:
             for a in self.hold[pid]:
                 self.last[pid][a] = _quote(self.salt, a, t_us)[2]
-        fills = []
-        if _is_open(t_us):
-            batch = [(pid, o) for pid in self.order for o in self.pending[pid]]
-            for pid in self.order:
-                self.pending[pid] = []
-            for pid, (tok, a, q) in [x for x in batch if x[1][2] < 0] + [x for x in batch if x[1][2] > 0]:
-                bid, ask, _ = _quote(self.salt, a, t_us)
-                price = ask if q > 0 else bid
-                comm = _fee(self.fee_cfg, round(price * q))
-                total = price * q + comm
-                self.cash[pid] -= total
-                self.scale = max(self.scale, abs(total))
-                nq = self.hold[pid].get(a, 0) + q
-                if nq == 0:
-                    self.hold[pid].pop(a, None)
-                    self.last[pid].pop(a, None)
-                else:
-                    self.hold[pid][a] = nq
-                    self.last[pid][a] = price
-                if q > 0:
-                    self.hist[pid].append(('asset_transaction', 'debit', total, self.cash[pid], t_us))
-                else:
-                    self.hist[pid].append(('asset_transaction', 'credit', -total, self.cash[pid], t_us))
-                fills.append((pid, a, q, price, comm))
-        return fills
+
+    def expected_order(self, pid):
+        """The pending orders of one portfolio in the order in which one update must fill them: sells, then buys, each FIFO."""
+        return [o for o in self.pending[pid] if o[2] < 0] + [o for o in self.pending[pid] if o[2] > 0]
+
+    def drain(self, t_us):
+        """update(t), second half: the orders that this update must fill, [(pid, token, asset, qty)] (all sells before all buys,
+        portfolios in creation order inside a side); the queues are emptied iff the exchange is open at t."""
+        if not _is_open(t_us):
+            return []
+        batch = [(pid,) + o for pid in self.order for o in self.pending[pid]]
+        for pid in self.order:
+            self.pending[pid] = []
+        return [x for x in batch if x[3] < 0] + [x for x in batch if x[3] > 0]
+
+    def book(self, pid, a, q, price, comm, t_us):
+        """Accounting of ONE fill that actually happened (observed portfolio, quantity, price, commission): cash moves by
+        -(price*qty + commission), the holding by qty, the latest price seen becomes the fill price, one history event."""
+        if pid not in self.cash:
+            return
+        total = price * q + comm
+        self.cash[pid] -= total
+        self.scale = max(self.scale, abs(total))
+        if q != 0:
+            nq = self.hold[pid].get(a, 0) + q
+            if nq == 0:
+                self.hold[pid].pop(a, None)
+                self.last[pid].pop(a, None)
+            else:
+                self.hold[pid][a] = nq
+                self.last[pid][a] = price
+        if q >= 0:
+            self.hist[pid].append(('asset_transaction', 'debit', total, self.cash[pid], t_us))
+        else:
+            self.hist[pid].append(('asset_transaction', 'credit', -total, self.cash[pid], t_us))
 
     # -- derived figures -------------------------------------------------------------------------------------------------
     def mv(self, pid):
@@ -395,7 +405,7 @@ def _run_sequence(seed, index, acc, want_render=12):
         orig = p.transact_asset
 
         def recording_transact_asset(txn):
-            txn_log.append((pid, txn.asset, txn.quantity, txn.price, txn.commission, txn.dt))
+            txn_log.append((pid, txn.asset, txn.quantity, txn.price, txn.commission, txn.dt, getattr(txn, 'order_id', None)))
             return orig(txn)
         p.transact_asset = recording_transact_asset
 
@@ -729,33 +739,58 @@ def _run_sequence(seed, index, acc, want_render=12):
             L.now = t
             raise _Stop()
         obs = txn_log[n_log:]
-        exp = L.update(t)
+        L.mark(t)
+        # what had to happen: which orders, on which portfolio, in full, in which order
+        pend_all = [(pid,) + o for pid in L.order for o in had[pid]]                  # (pid, token, asset, qty)
+        order_exp = {pid: [o[0] for o in L.expected_order(pid)] for pid in L.order}   # tokens, sells then buys, FIFO
+        exp = L.drain(t)
         stats['fills'] += len(exp)
-        # still pending through a closed update / drained by an open one
+        # match every OBSERVED fill with one pending order (by order id; else by asset), each order at most once
+        unmatched = list(pend_all)
+        matches = []
+        for p, a, q, price, comm, dt, oid in obs:
+            cands = [x for x in unmatched if order_objs[x[1]].order_id == oid] or [x for x in unmatched if x[2] == a]
+            best = min(cands, key=lambda x: (x[0] != p, (x[2], x[3]) != (a, q), pend_all.index(x))) if cands else None
+            if best is not None:
+                unmatched.remove(best)
+            matches.append(best)
+        in_queue = set(id(o) for pid in L.order if pid in broker.open_orders for o in _pending(broker, pid))
+        # still pending through a closed update / filled by the first open one
         queues = {pid: len(_pending(broker, pid)) for pid in L.order if pid in broker.open_orders}
         if is_open:
             chk('pending-until-first-open-update', all(v == 0 for v in queues.values()), queues, 'all queues empty')
         else:
             chk('pending-until-first-open-update', len(obs) == 0 and all(queues.get(p) == len(had[p]) for p in L.order),
                 [len(obs), queues], [0, {p: len(had[p]) for p in L.order}])
-        cnt = collections.Counter
-        chk('filled-once-in-full', cnt((a, q) for _, a, q, _, _, _ in obs) == cnt((a, q) for _, a, q, _, _ in exp),
-            sorted(cnt((a, q) for _, a, q, _, _, _ in obs).items()), sorted(cnt((a, q) for _, a, q, _, _ in exp).items()))
-        per_obs = {pid: [(a, q) for p, a, q, _, _, _ in obs if p == pid] for pid in L.order}
-        per_exp = {pid: [(a, q) for p, a, q, _, _ in exp if p == pid] for pid in L.order}
-        own = all(cnt(per_obs[p]) == cnt(per_exp[p]) for p in L.order)
-        chk('fill-on-own-portfolio', own, per_obs, per_exp)
-        sides = [q > 0 for _, _, q, _, _, _ in obs]
-        chk('sells-before-buys-then-submission-order', sides == sorted(sides) and (not own or per_obs == per_exp),
-            [(p, a, q) for p, a, q, _, _, _ in obs], per_exp)
-        for p, a, q, price, comm, dt in obs:
+        # never twice, partially, or dropped: every observed fill is the full quantity of a distinct pending order, and an order
+        # that was not filled is still in its queue
+        dropped = [x for x in unmatched if id(order_objs[x[1]]) not in in_queue]
+        chk('filled-once-in-full', all(m is not None and (m[2], m[3]) == (f[1], f[2]) for f, m in zip(obs, matches)) and not dropped,
+            {'fills': [list(f[:3]) for f in obs], 'neither_filled_nor_pending': [[x[0], x[2], x[3]] for x in dropped]},
+            {'pending_orders': [[x[0], x[2], x[3]] for x in pend_all]})
+        # a fill lands on the portfolio of its order
+        chk('fill-on-own-portfolio', all(m is None or m[0] == f[0] for f, m in zip(obs, matches)),
+            [[f[0], f[1], f[2]] for f in obs], [None if m is None else [m[0], m[2], m[3]] for m in matches])
+        # all sells before all buys; the orders of one portfolio: sells then buys, each in submission order
+        sides = [f[2] > 0 for f in obs if f[2] != 0]
+        seq_ok = True
+        for pid in L.order:
+            got = [m[1] for f, m in zip(obs, matches) if m is not None and m[0] == pid and f[0] == pid]
+            seq_ok = seq_ok and got == [tok for tok in order_exp[pid] if tok in got]
+        chk('sells-before-buys-then-submission-order', sides == sorted(sides) and seq_ok,
+            [[f[0], f[1], f[2]] for f in obs], {pid: [[a, q] for _, a, q in L_exp_order(had[pid])] for pid in L.order})
+        # every fill that happened, judged from its own fields; then booked as it happened
+        for p, a, q, price, comm, dt, oid in obs:
             bid, ask, _ = _quote(salt, a, t)
-            want = ask if q > 0 else bid
-            chk('fill-price-ask-buy-bid-sell-at-update-time', close0(price, want), [p, a, q, price],
-                {'ask' if q > 0 else 'bid': want, 'at': _iso(t)})
+            ok = close0(price, ask) if q > 0 else close0(price, bid) if q < 0 else (close0(price, ask) or close0(price, bid))
+            chk('fill-price-ask-buy-bid-sell-at-update-time', ok, [p, a, q, price], {'bid': bid, 'ask': ask, 'at': _iso(t)})
             chk('fill-stamped-update-time', dt.value == t * 1000, [p, a, q, str(dt)], _iso(t))
             cexp = _fee(fee_cfg, round(price * q))
             chk('commission-is-fee-on-rounded-consideration', close0(comm, cexp) and comm >= 0.0, [p, a, q, price, comm], cexp)
+            L.book(p, a, q, price, comm, t)
+
+    def L_exp_order(pending):
+        return [o for o in pending if o[2] < 0] + [o for o in pending if o[2] > 0]
 
     _QP = ['pf_cash', 'pf_mv', 'pf_equity', 'pf_dict']
     _QA = ['acct_equity', 'acct_mv', 'acct_cash', 'acct_cash_usd', 'acct_cash_gbp']
@@ -933,7 +968,9 @@ def _run_sequence(seed, index, acc, want_render=12):
             one_op()
             if len(ops) > n_before and ops[n_before][0] != 'update':
                 chk('pending-until-first-open-update', len(txn_log) == n_log,
-                    'fill outside update: %r' % (txn_log[n_log:][:2],), 'no fill')
+                    'fill outside update: %r' % ([list(f[:3]) for f in txn_log[n_log:]][:2],), 'no fill')
+                for f in txn_log[n_log:]:           # booked as it happened, so that the accounting clauses judge the accounting
+                    L.book(f[0], f[1], f[2], f[3], f[4], f[5].value // 1000)
             after_op()
         except _Stop:           # the step was abandoned (a valid request or an update raised); already recorded
             pass
